@@ -9,6 +9,7 @@ CONSTANTS
   Deltas = {1, 4}
   SameModes = {FALSE}
   MaxTouched = 2
+  GenMaxMixed = 2
   GenWithRepeat = FALSE
   AsCoded = TRUE
 INVARIANTS TypeOK Completeness SoundNonCancelling SingleFaultDetected BatchSplitIndependent OnlyGapIsCancelling
